@@ -125,17 +125,17 @@ Proof. vm_compute. repeat split. Qed.
 Local Open Scope string_scope.
 Local Open Scope list_scope.
 
-Definition row_ok (r : recs) (k : string) (row : string * osnap) : Prop :=
-  fst row = k /\ exists l, rec_find r k = Some l /\ snap_diff (exact l) (snd row) = [].
+Definition row_ok (cnt : bool) (r : recs) (k : string) (row : string * osnap) : Prop :=
+  fst row = k /\ exists l, rec_find r k = Some l /\ dsel cnt (exact l) (snd row) = [].
 
 (* [rows_check] reports nothing iff the reported rows are, in order, exactly the
    expected measure names, each with statistics accepted by [snap_diff] against
    the exact statistics of the values recorded for that measure *)
-Theorem rows_check_nil_iff : forall kc keys r o,
+Theorem rows_check_nil_iff : forall cnt kc keys r o,
   (forall k, In k keys -> rec_find r k <> None) ->
-  (rows_check kc keys r o = [] <-> Forall2 (row_ok r) keys o).
+  (rows_check cnt kc keys r o = [] <-> Forall2 (row_ok cnt r) keys o).
 Proof.
-  intros kc keys r. induction keys as [|k keys IH]; intros o Hk.
+  intros cnt kc keys r. induction keys as [|k keys IH]; intros o Hk.
   - destruct o as [|row o]; simpl.
     + split; [constructor|reflexivity].
     + split; [discriminate|]. intros H; inversion H.
@@ -173,10 +173,10 @@ Qed.
 
 (* for the key list the checker actually uses (the recorded names, sorted) the
    side condition always holds *)
-Corollary rows_check_keys_of : forall kc r o,
-  rows_check kc (keys_of r) r o = [] <-> Forall2 (row_ok r) (keys_of r) o.
+Corollary rows_check_keys_of : forall cnt kc r o,
+  rows_check cnt kc (keys_of r) r o = [] <-> Forall2 (row_ok cnt r) (keys_of r) o.
 Proof.
-  intros kc r o. apply rows_check_nil_iff. intros k Hk. apply rec_find_keys.
+  intros cnt kc r o. apply rows_check_nil_iff. intros k Hk. apply rec_find_keys.
   unfold keys_of in Hk. apply (proj1 (sort_strs_in _ _)) in Hk. exact Hk.
 Qed.
 
